@@ -62,6 +62,8 @@ class Trace:
                 ret, after = sx.q(o[0]), cur
             elif t == 17:
                 ret, after = o, cur
+            elif t == 18:
+                ret, after = sx.q(o[0]), cur
             else:
                 after = cur
             yield {"n": n, "op": op, "ret": ret, "amt": amt, "before": cur, "after": after, "world": list(world), "error": None}
@@ -517,6 +519,20 @@ def mon_c18_loss(sc, obs):
     for st in tr.steps():
         if st["error"] is not None or st["after"] is None:
             return None
+        if st["op"][0] == 18:
+            # uncertainty loss (coefficient 1): nodes with a contradictory row contribute nothing, the others their total width;
+            # non-negative whenever no counted row is crossed (alpha = 1: always)
+            exp = F(0)
+            for i in range(tr.n):
+                rs = list(st["after"][i].values())
+                if any(crossed(sx.q(tr.kb[i][4][0]), l, u) for l, u in rs):
+                    continue
+                exp += sum((u - l for l, u in rs), F(0))
+            vals = [v for i in range(tr.n) for b in st["after"][i].values() for v in b]
+            tol = F(0) if all(v.denominator <= 1024 for v in vals) else F(1, 2 ** 14)
+            if abs(st["ret"] - exp) > tol or (all(sx.q(o[4][0]) == 1 for o in tr.kb) and st["ret"] < 0):
+                return (f"op #{st['n']}: uncertainty loss = total width of the rows of every formula without a contradictory row = {exp} (>= 0)", f"{st['ret']}", None)
+            continue
         if st["op"][0] != 14:
             continue
         rows = [(i, g, l, u) for i in range(tr.n) for g, (l, u) in st["after"][i].items() if crossed(sx.q(tr.kb[i][4][0]), l, u)]
@@ -568,7 +584,7 @@ def c18_fol_part(ctx):
             ops.append(op)
             if op[0] in (3, 4, 5, 8) or rng.random() < 0.2:
                 ops.append([14])
-        sc[5] = ops + [[5, -1, 30], [14], [9]]
+        sc[5] = ops + [[5, -1, 30], [14], [18], [9]]
     # supervised loss: unit-weight KBs (bounds stay on the 1/8 grid, so loss x 2n is recovered exactly), labels in random
     # order on random groundings (present or not), some equal to the row they label
     scs2, meta2 = gen_fol.gen_k40(rng, 150 if ctx.quick else 2000, weighted=False)
